@@ -154,7 +154,13 @@ func TestC15bStoredValues(t *testing.T) {
 			if rapid.IntRange(0, 3).Draw(rt, "deleteFailsDuringAdoption") == 0 {
 				adoptFaults = []byte{'D'}
 			}
-			n, _ := h.restart(restartOpts{K: h.Store.NOps(), Late: true, Config: cfg, AdoptFailNext: adoptFaults, Mutate: func(store map[uint][]byte) {
+			// (a restart with limits too low for what is pending comes first, 1 in 4:
+			// it gives up, after it removed what it found corrupt; its report counts)
+			preLimits := 0
+			if len(adoptFaults) == 0 && rapid.IntRange(0, 3).Draw(rt, "misconfiguredRestartFirst") == 0 {
+				preLimits = 1
+			}
+			n, _ := h.restart(restartOpts{K: h.Store.NOps(), Late: true, Config: cfg, AdoptFailNext: adoptFaults, PreAdoptLimits: preLimits, Mutate: func(store map[uint][]byte) {
 				v := append([]byte{}, store[key]...)
 				if short >= 0 {
 					store[key] = v[:short]
